@@ -1396,4 +1396,96 @@ def wf (s : Blob) : Bool :=
     && leaves.all (fun (k, h, i) => mapGet s.k2i k = some i && mapGet s.h2i h = some i)
     && hashesOk s
 
+/-! ### The structural invariant, executable
+
+`wf` above reads the reachable part off the blocks with several independent traversals.  The
+invariant that is proved inductive for every operation (`Lemmas/BlobRep.lean`: `SInv`) is phrased
+with ONE index-annotated tree: the blocks store that tree (parent pointers, children, clean leaves),
+its root is index 0, every index below the blob's length is either a node of the tree or on the free
+list (so every live node is reachable from the root), and the two caches hold exactly the leaves.
+`structOk` is the executable form the driver evaluates after every step. -/
+
+/-- a tree whose nodes carry their block index -/
+inductive IT where
+  | leaf (i : Nat) (k : KeyId) (v : ValueId) (h : Hash)
+  | node (i : Nat) (l r : IT)
+  deriving Repr
+
+namespace IT
+
+def idx : IT → Nat
+  | leaf i _ _ _ => i
+  | node i _ _ => i
+
+def indices : IT → List Nat
+  | leaf i _ _ _ => [i]
+  | node i l r => i :: (l.indices ++ r.indices)
+
+def erase : IT → T
+  | leaf _ k v h => .leaf k v h
+  | node _ l r => .node l.erase r.erase
+
+/-- the leaves, left to right, with their indexes -/
+def leaves : IT → List (Nat × KVH)
+  | leaf i k v h => [(i, k, v, h)]
+  | node _ l r => l.leaves ++ r.leaves
+
+def depth : IT → Nat
+  | leaf _ _ _ _ => 0
+  | node _ l r => max l.depth r.depth + 1
+
+end IT
+
+/-- the tree below index `i`, read off the blocks (children pointers only) -/
+def itOfAux (bl : List Block) : Nat → Nat → Option IT
+  | 0, _ => none
+  | f+1, i =>
+    match bl[i]? with
+    | none => none
+    | some b =>
+      match b.node with
+      | .leaf h _ k v => some (.leaf i k v h)
+      | .internal _ _ l r =>
+        match itOfAux bl f l, itOfAux bl f r with
+        | some a, some c => some (.node i a c)
+        | _, _ => none
+
+def itOf (s : Blob) : Option IT := itOfAux s.blocks (s.blocks.length + 1) 0
+
+/-- the blocks store the tree `t` below a node whose parent pointer is `p` -/
+def repB (bl : List Block) : Option Nat → IT → Bool
+  | p, .leaf i k v h => decide (bl[i]? = some { dirty := false, node := .leaf h p k v })
+  | p, .node i l r =>
+    (match bl[i]? with
+     | some b =>
+       (match b.node with
+        | .internal _ p' l' r' => decide (p' = p) && decide (l' = l.idx) && decide (r' = r.idx)
+        | .leaf _ _ _ _ => false)
+     | none => false) && repB bl (some i) l && repB bl (some i) r
+
+/-- parent pointers are below the blob's length -/
+def rangeB (s : Blob) : Bool :=
+  s.blocks.all fun b =>
+    match b.node.parent with
+    | some p => decide (p < s.blocks.length)
+    | none => true
+
+/-- the blob stores the tree `t` and nothing else -/
+def goodB (s : Blob) (t : IT) : Bool :=
+  repB s.blocks none t && decide (t.idx = 0) && decide t.indices.Nodup && decide s.free.Nodup
+    && s.free.all (fun i => decide (i < s.blocks.length) && !t.indices.contains i)
+    && (List.range s.blocks.length).all (fun i => t.indices.contains i || s.free.contains i)
+    && decide (s.k2i.Perm (t.leaves.map fun e => (e.2.1, e.1)))
+    && decide (s.h2i.Perm (t.leaves.map fun e => (e.2.2.2, e.1)))
+    && decide (t.leaves.map (·.2.1)).Nodup && decide (t.leaves.map (·.2.2.2)).Nodup
+    && rangeB s
+
+/-- the executable structural invariant -/
+def structOk (s : Blob) : Bool :=
+  if s.blocks.isEmpty then decide (s = Blob.empty)
+  else
+    match itOf s with
+    | some t => goodB s t
+    | none => false
+
 end ChiaModel.Blob
